@@ -20,6 +20,11 @@ type CapLog struct {
 	Tokens []string // secret tokens to look for (passwords, shared secrets)
 	Gate   func(kind, msg string)
 	Calls  int64
+	// one-shot gate: when armed, the next logger call parks until released (a logger call is an injected call
+	// inside the handlers, hence a scheduling point we control: C09 overlap scenarios)
+	armed   int32
+	parked  chan struct{}
+	release chan struct{}
 }
 
 func NewCapLog(rec *Rec, on bool) *CapLog { return &CapLog{rec: rec, on: on} }
@@ -45,8 +50,23 @@ func hb(h []string) [][]int {
 	return out
 }
 
+// ArmGate makes the next logger call park; returns the channels to wait on / to close.
+func (l *CapLog) ArmGate() (parked chan struct{}, release chan struct{}) {
+	l.parked, l.release = make(chan struct{}), make(chan struct{})
+	atomic.StoreInt32(&l.armed, 1)
+	return l.parked, l.release
+}
+func (l *CapLog) Disarm() { atomic.StoreInt32(&l.armed, 0) }
+func (l *CapLog) gatePoint() {
+	if atomic.LoadInt32(&l.armed) == 1 && atomic.CompareAndSwapInt32(&l.armed, 1, 0) {
+		close(l.parked)
+		<-l.release
+	}
+}
+
 func (l *CapLog) logf(kind string, format string, args ...interface{}) {
 	atomic.AddInt64(&l.Calls, 1)
+	l.gatePoint()
 	var msg string
 	if l.on || l.Gate != nil {
 		msg = fmt.Sprintf(format, args...)
@@ -80,6 +100,7 @@ func (l *CapLog) Debugf(ctx context.Context, format string, args ...interface{})
 // Record: a structured record; keys listed in obscure are marked by the same call as to be obscured.
 func (l *CapLog) Record(ctx context.Context, r map[string]string, obscure ...string) {
 	atomic.AddInt64(&l.Calls, 1)
+	l.gatePoint()
 	if l.Gate != nil {
 		l.Gate("record", "")
 	}
@@ -118,6 +139,7 @@ func (l *CapLog) Record(ctx context.Context, r map[string]string, obscure ...str
 // Set: context fields selected for retention.
 func (l *CapLog) Set(ctx context.Context, fields map[string]string, keys ...tq.ContextKey) context.Context {
 	atomic.AddInt64(&l.Calls, 1)
+	l.gatePoint()
 	if l.on {
 		ks := []string{}
 		hitKeys := []string{}
